@@ -115,6 +115,68 @@ class ClassInfo:
         return f"{self.module.name}:{self.qualname}"
 
 
+def _blocks(node):
+    for field in ("body", "orelse", "finalbody"):
+        b = getattr(node, field, None)
+        if isinstance(b, list) and b and isinstance(b[0], ast.stmt):
+            yield b
+    for h in getattr(node, "handlers", []) or []:
+        yield h.body
+    for c in getattr(node, "cases", []) or []:
+        yield c.body
+
+
+def inline_return_temporaries(tree) -> int:
+    """canonical form, applied to every function before analysis: `tmp = <expr>` immediately followed by `return tmp`,
+    where tmp is a local that is bound nowhere else and read nowhere else, is the same program as `return <expr>`.
+    The rules are written against the second spelling; the first is a common behaviour-preserving refactoring."""
+    count = 0
+    for fn in ast.walk(tree):
+        if not isinstance(fn, (ast.FunctionDef, ast.AsyncFunctionDef)):
+            continue
+        stores, loads = {}, {}
+        for n in ast.walk(fn):
+            if isinstance(n, ast.Name):
+                d = stores if isinstance(n.ctx, (ast.Store, ast.Del)) else loads
+                d[n.id] = d.get(n.id, 0) + 1
+            elif isinstance(n, (ast.Global, ast.Nonlocal)):
+                for nm in n.names:
+                    stores[nm] = stores.get(nm, 0) + 2
+        params = {a.arg for a in fn.args.posonlyargs + fn.args.args + fn.args.kwonlyargs}
+        # pass 1: adjacent (tmp = e; return tmp) pairs per name   pass 2: inline the names all of whose uses are such pairs
+        pairs = {}
+        blocks = []
+        stack = [fn]
+        while stack:
+            node = stack.pop()
+            for blk in _blocks(node):
+                blocks.append(blk)
+                for i in range(len(blk) - 1):
+                    a, b = blk[i], blk[i + 1]
+                    if isinstance(a, ast.Assign) and len(a.targets) == 1 and isinstance(a.targets[0], ast.Name) \
+                            and isinstance(b, ast.Return) and isinstance(b.value, ast.Name) \
+                            and b.value.id == a.targets[0].id and a.targets[0].id not in params:
+                        pairs[b.value.id] = pairs.get(b.value.id, 0) + 1
+                for st in blk:
+                    if not isinstance(st, (ast.FunctionDef, ast.AsyncFunctionDef, ast.ClassDef)):
+                        stack.append(st)
+        ok = {nm for nm, k in pairs.items() if stores.get(nm) == k and loads.get(nm) == k}
+        for blk in blocks:
+            i = 0
+            while i + 1 < len(blk):
+                a, b = blk[i], blk[i + 1]
+                if isinstance(a, ast.Assign) and len(a.targets) == 1 and isinstance(a.targets[0], ast.Name) \
+                        and a.targets[0].id in ok and isinstance(b, ast.Return) and isinstance(b.value, ast.Name) \
+                        and b.value.id == a.targets[0].id:
+                    new = ast.Return(value=a.value)
+                    ast.copy_location(new, a)
+                    new.end_lineno, new.end_col_offset = getattr(b, "end_lineno", None), getattr(b, "end_col_offset", None)
+                    blk[i:i + 2] = [new]
+                    count += 1
+                i += 1
+    return count
+
+
 class ModuleInfo:
     def __init__(self, name: str, path: str, relpath: str, source: str):
         self.name = name
@@ -122,6 +184,7 @@ class ModuleInfo:
         self.relpath = relpath
         self.source = source
         self.tree = ast.parse(source, filename=path)
+        self.inlined_returns = inline_return_temporaries(self.tree)
         self.functions: Dict[str, FuncInfo] = {}
         self.classes: Dict[str, ClassInfo] = {}
         self.assigns: Dict[str, ast.AST] = {}
